@@ -112,6 +112,21 @@ func (r *Remote) getPendingChan(key string) chan Message {
 }
 
 func (r *Remote) handleRequest(msg *Message) error {
+	if r.Server == nil {
+		// Nothing is served on this connection (a Remote that is only used
+		// for calling out, like the client command's): refuse the request.
+		return r.Codec.WriteMessage(&Message{
+			ID:      msg.ID,
+			Version: Version,
+			Response: &Response{
+				Result: nullResult,
+				Error: &ErrResponse{
+					Code:    ErrCodeMethodNotFound,
+					Message: fmt.Sprintf("method not found: %s", msg.Method),
+				},
+			},
+		})
+	}
 	ctx := context.WithValue(context.Background(), ctxService, r)
 	resp := r.Server.Handle(ctx, msg)
 	return r.Codec.WriteMessage(resp)
